@@ -132,6 +132,35 @@ def generate(g, tier):
                               compiler=g.r.choice([None, 'k', 'k2'])))
         steps.append(dict(op='compile', src=c['src'], opts=c['opts'], compiler=g.r.choice([None, 'k', 'k3']), reassign=True))
         cases.append(dict(op='history', steps=steps, meta=dict(c['meta'], family='script-after-others', nocorr=True)))
+    # the same Compiler (and the same options object) used before for a FILE that lies in a project folder whose config.yaml says
+    # something else: the project's settings are that compilation's business, the valid script afterwards is compiled with the
+    # options the caller gave
+    for _ in range(count(tier, 40, 400)):
+        lines = [gen_line(g) for _ in range(g.r.randint(1, 8))] + [('REM kept or dropped', ('rem', 'REM kept or dropped')), ('ALTCHAR 65', ('exact', 'ALTCHAR 65'))]
+        comments = g.chance(0.5)
+        c = script_case(g, lines, comments)
+        opts = dict(include_comments=comments)
+        pc = g.r.choice([dict(include_comments=not comments), dict(include_comments=not comments, flipper_commands=False), dict(flipper_commands=False),
+                         dict(include_comments=not comments, supress_command_not_exist=True, stack_limit=7)])
+        steps = [dict(op='compile_file', file='proj/main.txt', files={'proj/main.txt': g.r.choice(['REM in project\nSTRING p', 'STRING p\nDELAY 5'])}, cfgs={'proj': pc},
+                      opts=opts, compiler='k')]
+        if g.chance(0.4): steps.append(dict(op='compile', src=dict(text=g.r.choice(NOISE)), opts=opts, compiler='k'))
+        steps.append(dict(op='compile', src=c['src'], opts=opts, compiler='k'))
+        cases.append(dict(op='history', steps=steps, meta=dict(c['meta'], family='script-after-project', nocorr=True)))
+    # characters that some text-splitting routines treat as line boundaries (form feed, vertical tab, the information separators, NEL,
+    # the Unicode line / paragraph separators, a bare carriage return) inside the text of a line of a script given as ONE string: the
+    # line is still one line and its text is kept exactly
+    for _ in range(count(tier, 60, 500)):
+        lines = [gen_line(g) for _ in range(g.r.randint(0, 5))]
+        for _ in range(g.r.randint(1, 3)):
+            ch = g.r.choice(['\x0b', '\x0c', '\x1c', '\x1d', '\x1e', '\x85', '\u2028', '\u2029', '\r'])
+            a = ''.join(g.r.choice(ASCII_PRINT) for _ in range(g.r.randint(1, 6))); b = ''.join(g.r.choice(ASCII_PRINT) for _ in range(g.r.randint(1, 6)))
+            name = g.r.choice(SPEC['string'])
+            t = a + g.r.choice(['', ' ']) + ch + g.r.choice(['', ' ']) + b
+            lines.insert(g.r.randint(0, len(lines)), (rand_case(g, name) + ' ' + t, ('exact', name + ' ' + t)))
+        c = script_case(g, lines, g.chance(0.4))
+        c['meta'] = dict(c['meta'], family='script-separator-chars', nocorr=True)
+        cases.append(c)
     # long scripts: every line passes through, however many there are
     n = 30000 if tier == 'quick' else 120000
     big = [gen_line(g) for _ in range(50)]
